@@ -224,6 +224,12 @@ def gen_config(cs, tier='quick', force=None):
     # a Monte-Carlo run is sometimes preceded, in the same driver process, by an earlier small run (a history of runs):
     # whatever that leaves behind in the parent is inherited by the workers forked for the run under test
     c['pre_run'] = [None, None, None, 1, 2, 3][cs.choose(6, 'pre_run')]
+    # sometimes a second, independent Monte-Carlo driver process runs at the same time on the same machine (same temp
+    # directory, a base input file with the same name in another project directory, its own settings and result file)
+    c['second_driver'] = cs.choose(5, 'second_driver') == 4
+    if c['second_driver']:
+        c['pre_run'] = None
+        c['np_seed_b'] = cs.choose(1 << 30, 'np_seed_b')
     # delay regime
     ext = c['mode'] == 'extended'
     scales = [1e-5, 1e-6, 1e-4] if not ext else [1e-2, 1e-3, 1e-1]
@@ -358,7 +364,37 @@ def run_one(payload):
                 outcome['msg'] = str(e)[:300]
             outcome['cwd_after'] = os.getcwd()
 
-        fatal = k.run(parent, priv)
+        others = None
+        if c.get('second_driver'):
+            work_b = os.path.join(sandbox, 'project b')
+            os.makedirs(work_b)
+            inp_b = os.path.join(work_b, 'base_input.txt')      # same file name as the first driver's base input
+            stg_b = os.path.join(work_b, 'mc_settings.txt')
+            out_b = os.path.join(work_b, 'MC_Result.txt')
+            cb = dict(c, base=1 - c['base'])
+            with open(inp_b, 'w') as f:
+                f.write(base_text(cb))
+            with open(stg_b, 'w') as f:
+                f.write(settings_text(c))
+            outcome_b = {}
+
+            def parent_b():
+                from pathlib import Path
+                from geophires_monte_carlo import GeophiresMonteCarloClient
+                from geophires_monte_carlo import MonteCarloRequest
+                from geophires_monte_carlo import SimulationProgram
+                prog = SimulationProgram.HIP_RA_X if c['program'] == 'hip' else SimulationProgram.GEOPHIRES
+                try:
+                    GeophiresMonteCarloClient().get_monte_carlo_result(MonteCarloRequest(prog, Path(inp_b), Path(stg_b), Path(out_b)))
+                    outcome_b['main'] = 'ok'
+                except RuntimeError as e:
+                    outcome_b['main'] = 'raised'
+                    outcome_b['msg'] = str(e)[:300]
+                outcome_b['cwd_after'] = os.getcwd()
+            priv_b = K.Priv(np.random.RandomState(c['np_seed_b']).get_state(), _random.Random(c['np_seed_b']).getstate(),
+                            work_b, ['mc-driver-b'])
+            others = [(parent_b, priv_b)]
+        fatal = k.run(parent, priv, others)
         tempfile.tempdir = None
         rec['fatal'] = list(fatal) if fatal else None
         rec['outcome'] = outcome
@@ -376,7 +412,17 @@ def run_one(payload):
             rec['harness_error'] = fatal[0]
             rec['detail'] = fatal[1]
             return rec
-        analyse(rec, c, k, out, inp, payload)
+        analyse(rec, c, k, out, inp, payload, driver=k.procs[0] if c.get('second_driver') else None)
+        if c.get('second_driver') and not rec.get('harness_error'):
+            rec_b = {'fatal': rec['fatal'], 'outcome': outcome_b, 'fault_fired': rec['fault_fired'], 'probes': rec['probes']}
+            analyse(rec_b, cb, k, out_b, inp_b, payload, driver=k.procs[1])
+            for v in rec_b.get('violations') or []:
+                v['detail'] = 'second driver: ' + v['detail']
+                rec['violations'].append(v)
+            rec['second_driver_rows'] = rec_b.get('rows')
+            rec['rows_replayed'] = (rec.get('rows_replayed') or 0) + (rec_b.get('rows_replayed') or 0)
+            if rec_b.get('lost_without_failures'):
+                rec['lost_without_failures'] = True
         if payload.get('want_log'):
             rec['log'] = [list(e) for e in k.log[-payload['want_log']:]]
         rec['choices'] = list(cs.trace)
@@ -493,12 +539,17 @@ def extract_output(report, label):
     return hits
 
 
-def analyse(rec, c, k, out_path, inp_path, payload):
+def analyse(rec, c, k, out_path, inp_path, payload, driver=None):
     viol = []   # dicts: property, cls, cause, detail
     rec['violations'] = viol
     marks = getattr(k, 'marks', None) or {'notes': 0, 'pools': 0}
     notes = k.notes[marks['notes']:]
     pools = k.pools[marks['pools']:]
+    if driver is not None:
+        # several independent drivers ran in this simulation: keep what belongs to this one (its pools, its workers, itself)
+        pools = [pl_ for pl_ in pools if pl_.owner is driver]
+        pids = {driver.pid} | {w.pid for pl_ in pools for w in pl_.workers}
+        notes = [(kind, n) for kind, n in notes if n.get('pid') in pids]
     strict = c['mode'] == 'strict'
     fatal = rec['fatal']
     pool = pools[0] if pools else None
